@@ -264,5 +264,8 @@ class If(raw_types.Operation):
         subop_qasm = protocols.qasm(self._sub_operation, args=args, qubits=qubits, default=None)
         if subop_qasm is None:
             return None
+        if subop_qasm.count(';') != 1:
+            # `if (...)` guards exactly one statement; decompose into single-statement operations.
+            return None
         condition_qasm = " && ".join(protocols.qasm(c, args=args) for c in self._conditions)
         return f'if ({condition_qasm}) {subop_qasm}'
